@@ -139,6 +139,8 @@ pub struct GTok {
     pub text: String,
     pub role: Role,
     pub depth: usize,
+    /// type name of the element this token opens / closes / names (Begin, End, Tag), else empty
+    pub elem: String,
 }
 #[derive(Clone, Debug, PartialEq)]
 pub enum Role {
@@ -172,17 +174,23 @@ pub struct DocGen<'a> {
     pub out: Vec<GTok>,
     counter: usize,
     budget: usize,
+    /// when set, the first parameter of position-restricted types (`uint position`) ascends in generation order
+    pub ascending_positions: bool,
+    pos_counter: u32,
 }
 
 pub const VERSIONS: [(u8, &str); 6] = [(1, "1 50"), (2, "1 51"), (3, "1 60"), (4, "1 61"), (5, "1 70"), (6, "1 71")];
 
 impl<'a> DocGen<'a> {
     pub fn new(g: &'a Grammar, rng: &'a mut Rng, opts: GenOpts) -> Self {
-        DocGen { g, rng, opts, out: vec![], counter: 0, budget: 400 }
+        DocGen { g, rng, opts, out: vec![], counter: 0, budget: 400, ascending_positions: false, pos_counter: 0 }
     }
 
     fn push(&mut self, text: String, role: Role, depth: usize) {
-        self.out.push(GTok { text, role, depth });
+        self.out.push(GTok { text, role, depth, elem: String::new() });
+    }
+    fn push_e(&mut self, text: String, role: Role, depth: usize, elem: &str) {
+        self.out.push(GTok { text, role, depth, elem: elem.to_string() });
     }
 
     pub fn ident(&mut self) -> String {
@@ -287,8 +295,14 @@ impl<'a> DocGen<'a> {
 
     /// parameters + tagged children of the type (without the tag / begin / end)
     pub fn gen_body(&mut self, ty: &str, depth: usize) {
-        let Some(TyDef::Block { items, arms, .. }) = self.g.types.get(ty).cloned() else { return };
-        for it in &items {
+        let Some(TyDef::Block { items, arms, pos, .. }) = self.g.types.get(ty).cloned() else { return };
+        for (k, it) in items.iter().enumerate() {
+            if k == 0 && pos == 1 && self.ascending_positions {
+                self.pos_counter += 1 + self.rng.below(3) as u32;
+                let v = self.pos_counter.to_string();
+                self.push(v, Role::Param, depth);
+                continue;
+            }
             self.gen_item(it, depth);
         }
         // children in a random order of arms
@@ -326,25 +340,25 @@ impl<'a> DocGen<'a> {
 
     pub fn gen_element(&mut self, tag: &str, ty: &str, block: bool, depth: usize) {
         if block {
-            self.push("/begin".into(), Role::Begin, depth);
+            self.push_e("/begin".into(), Role::Begin, depth, ty);
         }
-        self.push(tag.to_string(), Role::Tag, depth);
+        self.push_e(tag.to_string(), Role::Tag, depth, ty);
         self.gen_body(ty, depth);
         if block {
-            self.push("/end".into(), Role::End, depth);
-            self.push(tag.to_string(), Role::Tag, depth);
+            self.push_e("/end".into(), Role::End, depth, ty);
+            self.push_e(tag.to_string(), Role::Tag, depth, ty);
         }
     }
 
     /// a whole file: ASAP2_VERSION, optionally A2ML_VERSION, PROJECT
     pub fn gen_file(&mut self) {
         let v = VERSIONS.iter().find(|x| x.0 == self.opts.version).unwrap().1;
-        self.push("ASAP2_VERSION".into(), Role::Tag, 0);
+        self.push_e("ASAP2_VERSION".into(), Role::Tag, 0, "Asap2Version");
         for p in v.split(' ') {
             self.push(p.to_string(), Role::Param, 0);
         }
         if self.rng.chance(1, 4) {
-            self.push("A2ML_VERSION".into(), Role::Tag, 0);
+            self.push_e("A2ML_VERSION".into(), Role::Tag, 0, "A2mlVersion");
             self.push("1".into(), Role::Param, 0);
             self.push("31".into(), Role::Param, 0);
         }
@@ -415,6 +429,14 @@ pub fn render(toks: &[GTok], rng: &mut Rng, layout: Layout, crlf: bool) -> Strin
 
 pub fn gen_document(g: &Grammar, rng: &mut Rng, opts: GenOpts) -> Vec<GTok> {
     let mut dg = DocGen::new(g, rng, opts);
+    dg.gen_file();
+    dg.out
+}
+
+/// like `gen_document`, position-restricted items in ascending position order (the writer's canonical order)
+pub fn gen_document_canonical(g: &Grammar, rng: &mut Rng, opts: GenOpts) -> Vec<GTok> {
+    let mut dg = DocGen::new(g, rng, opts);
+    dg.ascending_positions = true;
     dg.gen_file();
     dg.out
 }
